@@ -15,27 +15,47 @@ enum Expect {
     Fatal(usize),
 }
 
-fn expect_next(input: &[u8]) -> Expect {
-    let mut off = 0;
-    let mut i = 0;
-    // at most 3 complete unknown-id frames (>= 5 bytes each) fit the harness bounds (<= 19 bytes)
-    while i < 4 {
-        match bep3_verdict(&input[off..]) {
-            Verdict::Frame(k) => return Expect::FrameEndsAt(off + k),
-            Verdict::Unknown(k) => {
-                if off + k <= input.len() {
-                    off += k;
-                } else {
-                    return Expect::Wait(off);
-                }
+/// One reference step at offset `off`: Ok(final expectation) or Err(new offset after skipping a
+/// complete unknown-id frame).
+fn expect_step(input: &[u8], off: usize) -> Result<Expect, usize> {
+    match bep3_verdict(&input[off..]) {
+        Verdict::Frame(k) => Ok(Expect::FrameEndsAt(off + k)),
+        Verdict::Unknown(k) => {
+            if off + k <= input.len() {
+                Err(off + k)
+            } else {
+                Ok(Expect::Wait(off))
             }
-            Verdict::NeedMore => return Expect::Wait(off),
-            Verdict::NeedMoreOrFatal => return Expect::WaitOrFatal(off),
-            Verdict::Fatal => return Expect::Fatal(off),
         }
-        i += 1;
+        Verdict::NeedMore => Ok(Expect::Wait(off)),
+        Verdict::NeedMoreOrFatal => Ok(Expect::WaitOrFatal(off)),
+        Verdict::Fatal => Ok(Expect::Fatal(off)),
     }
-    Expect::Wait(off)
+}
+
+/// Loop-free (five unrolled steps: up to four skipped unknown-id frames of >= 5 bytes each fit
+/// the largest harness bound of 20 bytes).
+fn expect_next(input: &[u8]) -> Expect {
+    let off = match expect_step(input, 0) {
+        Ok(e) => return e,
+        Err(o) => o,
+    };
+    let off = match expect_step(input, off) {
+        Ok(e) => return e,
+        Err(o) => o,
+    };
+    let off = match expect_step(input, off) {
+        Ok(e) => return e,
+        Err(o) => o,
+    };
+    let off = match expect_step(input, off) {
+        Ok(e) => return e,
+        Err(o) => o,
+    };
+    match expect_step(input, off) {
+        Ok(e) => e,
+        Err(o) => Expect::Wait(o),
+    }
 }
 
 fn conn_with(bytes: &[u8], socket: Option<TcpStream>) -> Connection {
@@ -86,7 +106,7 @@ fn parse_frame_total<const N: usize>() {
 // @assume Connection is built literally with a 32-byte BytesMut instead of Connection::new's 64 KiB one (capacity is not observable by parse_frame; the 64 KiB allocation alone costs 700 s of symbolic execution)
 // @desc parse_frame never panics (incl. unknown id whose body has not arrived), never consumes more than is buffered, delivers a frame exactly at the reference frame boundary, and errs only on streams the reference calls fatal
 #[kani::proof]
-#[kani::unwind(6)]
+#[kani::unwind(4)]
 fn c06_parse_frame_total_12() {
     parse_frame_total::<12>();
 }
@@ -97,7 +117,7 @@ fn c06_parse_frame_total_12() {
 // @bound every buffer content of 0..=20 bytes
 // @desc as c06_parse_frame_total_12 up to 20 bytes
 #[kani::proof]
-#[kani::unwind(7)]
+#[kani::unwind(6)]
 fn c06_parse_frame_total_20() {
     parse_frame_total::<20>();
 }
@@ -147,7 +167,7 @@ fn recv_delivers_buffered<const N: usize>() {
 // @outside buffers longer than 11 (quick) / 16 (thorough) bytes; the socket read path of recv_frame (EOF, reset, re-segmentation) is not executed symbolically: Kani did not finish recv_frame with a scripted socket even for 6 concrete-length bytes (DESIGN 3.8)
 // @desc every complete message already received is delivered by recv_frame without waiting for further bytes, also when it sits behind skipped unknown-id messages; recv_frame turns to the socket only when nothing deliverable is buffered; malformed lengths yield an error
 #[kani::proof]
-#[kani::unwind(6)]
+#[kani::unwind(4)]
 fn c06_recv_frame_delivers_buffered_11() {
     recv_delivers_buffered::<11>();
 }
@@ -158,7 +178,7 @@ fn c06_recv_frame_delivers_buffered_11() {
 // @bound every buffered content of 0..=16 bytes, socket absent
 // @desc as c06_recv_frame_delivers_buffered_11 up to 16 bytes (three unknown-id frames + a header)
 #[kani::proof]
-#[kani::unwind(7)]
+#[kani::unwind(5)]
 fn c06_recv_frame_delivers_buffered_16() {
     recv_delivers_buffered::<16>();
 }
